@@ -320,9 +320,12 @@ func (g *Graph) addTask(t *Task) error {
 	// 	g.errs = append(g.errs, err)
 	// 	return err
 	// }
-	if _, ok := g.Vertices[t.ID]; !ok {
-		g.dotDiagram += fmt.Sprintf("\t\"%s\";\n", t.ID)
+	if v, ok := g.Vertices[t.ID]; ok {
+		// Keep the existing vertex so that the edges already defined for it stay valid.
+		v.Task = t
+		return nil
 	}
+	g.dotDiagram += fmt.Sprintf("\t\"%s\";\n", t.ID)
 	g.Vertices[t.ID] = &Vertex{
 		ID:       t.ID,
 		Task:     t,
